@@ -202,6 +202,7 @@ func H_C19_typed(v *V) {
 	viaParse := v.Choice(2) == 1
 	var data interface{}
 	want := ErrUnknown
+	wantOK := false
 	switch class {
 	case 0: // short name longer than one character
 		S := v.String(v.Shape("lv"))
@@ -226,6 +227,20 @@ func H_C19_typed(v *V) {
 	case 4: // collision created by namespaces: ns "a" + long "b.c"  vs  ns "a.b" + long "c"
 		data = vTagged(v, "gg", []string{`group:"One" namespace:"a"`, `long:"b.c"`, `group:"Two" namespace:"a.b"`, `long:"c"`})
 		want = ErrDuplicatedFlag
+	case 5: // legal: a long name that spells another option's (or its own) short name
+		R := v.String(v.Shape("lv"))
+		v.Assume(refOneRune(R) && R != "\x00" && R != "x")
+		if v.Choice(2) == 1 {
+			data = vTagged(v, "ss", []string{"long:" + refQuote(R), "short:" + refQuote(R) + ` long:"two"`})
+		} else {
+			data = vTagged(v, "ss", []string{"short:" + refQuote(R) + " long:" + refQuote(R), `short:"x" long:"two"`})
+		}
+		wantOK = true
+	case 6: // legal: two options with different short and long names
+		R1, R2 := v.String(v.Shape("lv")), v.String(1)
+		v.Assume(refOneRune(R1) && R1 != "\x00" && refOneRune(R2) && R2 != "\x00" && R1 != R2)
+		data = vTagged(v, "ss", []string{"short:" + refQuote(R1) + " long:" + refQuote("l"+R1), "short:" + refQuote(R2) + " long:" + refQuote("l"+R2)})
+		wantOK = true
 	}
 	var err error
 	if viaParse {
@@ -241,6 +256,10 @@ func H_C19_typed(v *V) {
 	}
 	vObsErr(v, err)
 	v.Reach("checked")
+	if wantOK {
+		v.Assert(err == nil, "a legal declaration (distinct short names, distinct long names) is accepted")
+		return
+	}
 	t, typed := vErrType(err)
 	v.Assert(err != nil && typed && t == want, "the declaration is rejected with the corresponding typed error")
 }
